@@ -170,6 +170,47 @@ def worker(ctx):
                    (min(a, b) < LO + 2**32 or max(a, b) > HI - 2**32 or abs(s) > 2**32))
         record(p["src"], ["R", f"R:edgy_loops:{min(edgy, 6)}"], edgy >= 2, st1, ("range." + b1) if st1 == "mismatch" else b1, d1)
 
+    # ---- stage 4: branch / loop conditions comparing values of different numeric kinds at equal and
+    # adjacent values (run-time operands: function parameters), e.g. `while budget >= spent + cost`
+    OPS = ["<", "<=", "==", "!=", ">", ">="]
+
+    PAIRS = [("int", "float"), ("float", "int"), ("nat", "float"), ("float", "nat"), ("nat", "int"), ("int", "nat"),
+             ("int", "int"), ("float", "float")]
+    COMBOS = [(lt, rt, op) for lt, rt in PAIRS for op in OPS]  # 48, enumerated: 12 per program, 4 programs
+
+    def lit_(x, t):
+        if t == "float":
+            return f"{float(x)!r}" if x >= 0 else f"({float(x)!r})"
+        if t == "nat":
+            return f"nat({x})"
+        return str(x) if x >= 0 else f"({x})"
+
+    def cond_prog(chunk, form, base):
+        defs, calls = [], []
+        for k, (lt, rt, op) in enumerate(COMBOS[chunk * 12:(chunk + 1) * 12]):
+            body = {0: [f"    if a {op} b:", f'        result("t{k}", 1)', "    else:", f'        result("f{k}", 0)'],
+                    1: ["    n = 0", f"    while a {op} b and n < 3:", "        n += 1", f'    result("w{k}", n)'],
+                    2: [f'    result("e{k}", 1 if a {op} b else 2)']}[form]
+            defs.append(f"@guppy\ndef c{k}(a: {lt}, b: {rt}) -> None:\n" + "\n".join(body) + "\n")
+            v = (base + k) % 5 + 1
+            for d in (0, 1, -1):
+                calls.append(f"    c{k}({lit_(v, lt)}, {lit_(v + d, rt)})")
+            if "nat" not in (lt, rt):
+                calls.append(f"    c{k}({lit_(-v, lt)}, {lit_(-v, rt)})")
+        return {"src": "\n" + "\n".join(defs) + "\n@guppy\ndef main() -> None:\n" + "\n".join(calls) + "\n"}
+
+    def body_c(p):
+        st1, b1, d1 = evaluate(p["src"])
+        record(p["src"], ["K"], True, st1, ("cond." + b1) if st1 == "mismatch" else b1, d1)
+
+    # enumerated: shard i runs chunk i % 4 in form (i // 4) % 3 (if / while / conditional expression); with 16 shards every
+    # (kinds, operator) pair is run in every form
+    for j in range(ctx.params.get("n_cond", 0)):
+        if ctx.out_of_time(0.7):
+            break
+        i = ctx.shard + j * ctx.nshards
+        body_c(cond_prog(i % 4, (i // 4) % 3, ctx.seed * 7 + i))
+
     if ctx.params.get("n_range"):
         harness.hyp_search(ctx, range_prog(), body_r, max_examples=ctx.params["n_range"], chunk=5, time_frac=0.72, extra_seed=9)
     n = total[0]
@@ -187,7 +228,7 @@ def worker(ctx):
                 return (p["src"], d) if st == "mismatch" and b == _b else None
 
             r = None
-            if not bucket.startswith(("expr.", "range.")):
+            if not bucket.startswith(("expr.", "range.", "cond.")):
                 r = harness.hyp_shrink(ctx, single, fails, budget_s=min(60, ctx.budget_s * 0.25), max_examples=150)
             if r:
                 src, detail = r[1]
@@ -205,13 +246,15 @@ SPEC = harness.Spec(
           "expression programs restricted to the classical fragment (walrus, conditional expressions, and/or, chained comparisons, "
           "calls, struct fields, tuple indexing inside assignments, conditions, arguments, augmented / subscript assignments; 5 per "
           "build). Stage 3: programs of 12 `for` loops over range(a, b, s) with a, b, s at the edges of the 64-bit domain and <= 6 "
-          "iterations each (non-trivial = >= 2 non-empty loops touching the edge region)"),
+          "iterations each (non-trivial = >= 2 non-empty loops touching the edge region). Stage 4: 10 functions per program whose "
+          "if / while / conditional-expression condition compares two run-time operands of different numeric kinds (int, nat, float) "
+          "with each of the six operators, called at equal and adjacent values"),
     assumptions=["CPython 3.12 is the reference semantics; ints reduced mod 2^64 into the signed range after every arithmetic op",
                  "selene 0.4.3 executes the lowered copy of the package (compat bridge, DESIGN.md 1.2)",
                  "programs the checker rejects or that crash the compiler are outside this property (C01/C02/C08 judge them); their rate is bounded (<15%) else exit 2"],
     shards={"quick": 16, "thorough": 16},
     budget_s={"quick": 130, "thorough": 1400},
-    params={"quick": {"n": 10, "batch": 4, "n_expr": 4, "n_range": 3},
+    params={"quick": {"n": 10, "batch": 4, "n_expr": 4, "n_range": 3, "n_cond": 1},
             "thorough": {"n": 400, "batch": 4, "n_expr": 150, "n_range": 60}},
     min_nontrivial=30,
 )
